@@ -252,10 +252,24 @@ pub fn run(rt: &tokio::runtime::Runtime, cols: &[&str]) -> Value {
                             Some(Ok(v2)) => (true, serde_json::to_value(&v2).ok() == Some(j.clone()), v2.to_swift_string() == ser),
                             _ => (false, false, false),
                         };
-                        json!({"ok": true, "ser": ser, "json": j, "printed": body, "variant_tag": v.get_variant_tag(),
+                        json!({"ok": true, "ser": ser, "json": j, "printed": body, "variant_tag": v.get_variant_tag(), "debug": format!("{:?}", v),
                                "again_ok": again_ok, "again_equal": again_eq, "again_ser_equal": again_ser})
                     }
                     Err(e) => err_json(&e),
+                }
+            }, json!({"bad_case": format!("unknown field type {}", cols[1])}))
+        }
+        // fjson <FieldType> <hex json text>: serde_json::from_value::<T>
+        "fjson" => {
+            let js = unhex_str(cols[2]).unwrap_or_default();
+            let jv: Value = match serde_json::from_str(&js) {
+                Ok(v) => v,
+                Err(e) => return json!({"bad_case": format!("json: {e}")}),
+            };
+            with_field!(cols[1], T => {
+                match serde_json::from_value::<T>(jv) {
+                    Ok(v) => json!({"ok": true, "ser": v.to_swift_string(), "json": serde_json::to_value(&v).unwrap_or(Value::Null), "debug": format!("{:?}", v)}),
+                    Err(e) => json!({"ok": false, "display": e.to_string()}),
                 }
             }, json!({"bad_case": format!("unknown field type {}", cols[1])}))
         }
